@@ -171,6 +171,11 @@ impl ReplCell {
         for k in 1..=self.env.hold_updates.min(n) {
             v.push((format!("hold last {k} of {n}"), 1));
         }
+        // The transport owes the update channel exactly what the library declares for it: if
+        // the declared kind does not promise order, the messages may arrive in any order.
+        if n >= 2 && x.sim.server_channels[UPD] != bevy_replicon::prelude::Channel::Ordered {
+            v.push(("all, newest first".into(), 0));
+        }
         v
     }
 
@@ -720,12 +725,17 @@ impl Scenario for ReplCell {
             }
             Phase::Upd(c) => {
                 let n = x.sim.clients[c].s2c[UPD].len();
-                let k = n - alt;
-                if alt > 0 {
-                    x.upd_held += 1;
-                    x.line.push_str(&format!(" updates {k} of {n};"));
+                if self.upd_alts(x, c).get(alt).is_some_and(|a| a.0 == "all, newest first") {
+                    x.line.push_str(" updates newest first;");
+                    x.sim.deliver_to_client(c, UPD, &Sel::Indices((0..n).rev().collect()));
+                } else {
+                    let k = n - alt;
+                    if alt > 0 {
+                        x.upd_held += 1;
+                        x.line.push_str(&format!(" updates {k} of {n};"));
+                    }
+                    x.sim.deliver_to_client(c, UPD, &Sel::Prefix(k));
                 }
-                x.sim.deliver_to_client(c, UPD, &Sel::Prefix(k));
                 self.advance(x);
             }
             Phase::Mut(c) => {
